@@ -70,22 +70,32 @@ class Report:
                 pass
         seen_keys = set()
         produced = {v["key"] for v in self.violations} | {o["instance"] for o in self.obligations if isinstance(o.get("instance"), str)}
+        produced_ok = {o["instance"] for o in self.obligations if isinstance(o.get("instance"), str) and o["status"] == "discharged"}
+        # recorded findings whose site moved within its function family / whose ordinal shifted
+        moved_known = {}
+        fams = getattr(self, "families", None)
+        if fams is not None:
+            from .sitematch import match_sites
+            by_rule = {}
+            for v in self.violations:
+                if "|" in v["key"]:
+                    by_rule.setdefault((v["property"], v["rule"]), []).append(v)
+            for (pp, rr), vs in by_rule.items():
+                ents = {kk[2]: d for kk, d in known.items() if kk[0] == pp and kk[1] == rr and d.get("status") == "known" and "|" in kk[2] and kk[2] not in produced_ok}
+                if not ents:
+                    continue
+                m = match_sites(fams, [(v["key"], (v.get("detail") or {}).get("snip") if isinstance(v.get("detail"), dict) else None) for v in vs], ents, consolidate=True)
+                for sk, ek in m.items():
+                    if sk != ek:
+                        moved_known[(pp, rr, sk)] = (pp, rr, ek)
         for i, v in enumerate(self.violations):
             k = (v["property"], v["rule"], v["key"])
             if k in seen_keys:
                 continue
             seen_keys.add(k)
             kf = known.get(k)
-            if kf is None and "|" in v["key"] and getattr(self, "all_fn_names", None):
-                # the site of a recorded finding may have moved between sibling nested items of one parent function
-                fnpart, rest = v["key"].split("|", 1)
-                if "::" in fnpart:
-                    parent = fnpart.rsplit("::", 1)[0]
-                    cands = [kk for kk in known if kk[0] == v["property"] and kk[1] == v["rule"] and "|" in kk[2] and kk[2].endswith("|" + rest)
-                             and "::" in kk[2].split("|", 1)[0] and kk[2].split("|", 1)[0].rsplit("::", 1)[0] == parent
-                             and kk[2] not in produced and known[kk].get("status") == "known"]
-                    if len(cands) == 1:
-                        kf = known[cands[0]]
+            if kf is None and k in moved_known:
+                kf = known[moved_known[k]]
             if kf is not None and kf.get("status") == "known":
                 n_known += 1
                 out_lines.append("KNOWN-FINDING: property=%s %s [%s %s] %s" % (
